@@ -25,6 +25,8 @@ def stores_in(fn):
                 out.append((b, i, l["field"], n))
     return out
 
+PTHREAD_CREATE_JOINABLE, PTHREAD_CREATE_DETACHED = 0, 1
+
 
 def run(prog, rep):
     rep.rule("C05.1", "start-up handshake: native create and all initialising stores happen under the creation spinlock; the new thread reads the creator-initialised fields only after passing the same spinlock")
@@ -244,6 +246,28 @@ def run(prog, rep):
             if not any(fk.endswith("->joinable") and ((fop == "!=" and fv == 0) or (fop == "==" and fv == 1)) for (fk, fop, fv) in f):
                 okj, msg = False, "the native wait is reached without the joinable flag tested true (joining a detached thread is undefined)"
     rep.ob("C05.3", jn, "join", okj, "join refuses non-joinable handles, waits on its own handle, then returns ret_code" if okj else msg, jn.loc[0])
+    # the native thread is created joinable exactly when the handle says so: join() on a handle whose native thread was created
+    # detached is undefined, and a detached-by-request thread created joinable is never reaped
+    ci = pu.fn("p_uthread_create_internal").inlined()
+    sd = [c for (b, i, c) in ci.calls() if c.get("callee") == "pthread_attr_setdetachstate"]
+    pc = [c for (b, i, c) in ci.calls() if c.get("callee") == "pthread_create"]
+    jst = [n for (b, i, f, n) in stores_in(ci) if f == "joinable"]
+    okd, msgd = len(sd) == 1 and len(pc) >= 1 and len(jst) == 1, "expected one pthread_attr_setdetachstate, pthread_create and one store of the joinable flag in create_internal"
+    if okd:
+        jp = root_var(jst[0]["r"])
+        if jp not in ci.param_names() or strip_casts(jst[0]["r"])["k"] != "ref":
+            okd, msgd = False, "line %d: the handle's joinable flag is %s, not the joinable argument" % (line(jst[0]), show(jst[0]["r"]))
+        else:
+            vt = guards.eval_const(sd[0]["args"][1], guards.add_fact(guards.EMPTY, jp, "==", 1))
+            vf = guards.eval_const(sd[0]["args"][1], guards.add_fact(guards.EMPTY, jp, "==", 0))
+            if (vt, vf) != (PTHREAD_CREATE_JOINABLE, PTHREAD_CREATE_DETACHED):
+                okd, msgd = False, ("line %d: the native detach state is %s for a joinable handle and %s for a non-joinable one (JOINABLE = 0, DETACHED = 1): "
+                                    "join waits on a detached native thread, or a detached-by-request thread is never reaped" % (line(sd[0]), vt, vf))
+            else:
+                for c_ in pc:
+                    if root_var(sd[0]["args"][0]) != root_var(c_["args"][1]) or cv(c_["args"][1]) == 0:
+                        okd, msgd = False, "line %d: pthread_create does not use the attribute object the detach state was set on" % line(c_)
+    rep.ob("C05.3", ci, "detachstate", okd, "the native thread is created JOINABLE exactly when the handle's joinable flag (the argument) is set" if okd else msgd, sd[0] if sd else ci.loc[0])
     wi_ = pu.fn("p_uthread_wait_internal").inlined()
     pj = [c for (b, i, c) in wi_.calls() if c.get("callee") == "pthread_join"]
     okw = len(pj) == 1 and guards.key(pj[0]["args"][0]) == "%s->hdl" % wi_.param_names()[0]
@@ -440,6 +464,8 @@ SELFTEST = [
          old="p_uthread_local_new ((PDestroyFunc) pp_uthread_cleanup);", new="p_uthread_local_new (NULL);"),
     dict(id="join-reads-code-before-wait", file="src/puthread.c", expect="C05.3",
          old="\tp_uthread_wait_internal (thread);\n\n\treturn base_thread->ret_code;", new="\t{ pint code = base_thread->ret_code; p_uthread_wait_internal (thread); return code; }"),
+    dict(id="detach-state-arms-swapped", file="src/puthread-posix.c", expect="C05.3",
+         old="joinable ? PTHREAD_CREATE_JOINABLE\n\t\t\t\t\t\t\t      : PTHREAD_CREATE_DETACHED", new="joinable ? PTHREAD_CREATE_DETACHED\n\t\t\t\t\t\t\t      : PTHREAD_CREATE_JOINABLE"),
     dict(id="join-detached", file="src/puthread.c", expect="C05.3",
          old="\tif (base_thread->joinable == FALSE)\n\t\treturn -1;\n\n\tp_uthread_wait_internal (thread);", new="\tp_uthread_wait_internal (thread);"),
     dict(id="exit-code-after-native-exit", file="src/puthread.c", expect="C05.3",
